@@ -19,13 +19,13 @@ var conds = []string{
 }
 
 type graphOpts struct {
-	MaxN        int
-	Probes      bool // allow process_healthy edges (real 1 s probe period)
-	ExitOn      bool // sprinkle exit_on_* flags
-	FailHeavy   bool // more failing roots (C05)
-	Restarts    bool
-	ApiOps      bool // StartProcess / RestartProcess / StopProcess ops
-	Density     float64
+	MaxN      int
+	Probes    bool // allow process_healthy edges (real 1 s probe period)
+	ExitOn    bool // sprinkle exit_on_* flags
+	FailHeavy bool // more failing roots (C05)
+	Restarts  bool
+	ApiOps    bool // StartProcess / RestartProcess / StopProcess ops
+	Density   float64
 }
 
 // genGraph draws a random acyclic project with behaviours.
@@ -205,7 +205,7 @@ func init() {
 
 	fw.Register(&fw.Property{
 		ID: "C01", Level: "exploration",
-		Rule: "seeded random acyclic projects (2-8 processes, five condition types, exit codes, start failures, restarts) under an environment scheduler that orders dependency exits / ready lines / probe results at random, plus API start/restart/stop; a case is non-trivial when at least one launch had to wait for a gate event that occurred after the dependent's instance existed; distinct = distinct event-order signature (launch/exit/state/probe/gate sequence)",
+		Rule:        "seeded random acyclic projects (2-8 processes, five condition types, exit codes, start failures, restarts) under an environment scheduler that orders dependency exits / ready lines / probe results at random, plus API start/restart/stop; a case is non-trivial when at least one launch had to wait for a gate event that occurred after the dependent's instance existed; distinct = distinct event-order signature (launch/exit/state/probe/gate sequence)",
 		Assumptions: []string{"simulated Commander (build tag verif) replaces exec; gate events are recorded before the supervisor can observe them", "finished = the dependency's terminal status write"},
 		Gen: func(seed int64, tier string) []fw.Case {
 			var cs []fw.Case
@@ -226,7 +226,7 @@ func init() {
 
 	fw.Register(&fw.Property{
 		ID: "C04", Level: "exploration",
-		Rule: "random acyclic projects with exit_on_failure / exit_on_end / exit_on_skipped on 0-3 processes, start failures, bad working dirs, skipped dependencies under every condition type; oracle: Run() returns (bounded-progress rule), not before the last command exit, with an exit code from the set of genuine triggers; non-trivial = at least one trigger or one process that never launched; distinct = event-order signature",
+		Rule:        "random acyclic projects with exit_on_failure / exit_on_end / exit_on_skipped on 0-3 processes, start failures, bad working dirs, skipped dependencies under every condition type; oracle: Run() returns (bounded-progress rule), not before the last command exit, with an exit code from the set of genuine triggers; non-trivial = at least one trigger or one process that never launched; distinct = event-order signature",
 		Assumptions: []string{"hang = no event for 6 s while no simulated command is alive and no request pending", "victim = command killed by a signal sent after the shutdown began"},
 		Gen: func(seed int64, tier string) []fw.Case {
 			var cs []fw.Case
@@ -258,7 +258,7 @@ func init() {
 
 	fw.Register(&fw.Property{
 		ID: "C05", Level: "exploration",
-		Rule: "random chains/trees (depth <= 6) whose roots fail in every way (non-zero exit, start error, bad working dir, exit before ready line / probe success, stopped by the user) mixed with slow satisfied siblings; reference: an edge whose dependency reached a terminal state with the condition unmet must leave the dependent never launched and reported Skipped with exit code != 0, recursively; non-trivial = at least one unsatisfiable edge observed; distinct = event-order signature",
+		Rule:        "random chains/trees (depth <= 6) whose roots fail in every way (non-zero exit, start error, bad working dir, exit before ready line / probe success, stopped by the user) mixed with slow satisfied siblings; reference: an edge whose dependency reached a terminal state with the condition unmet must leave the dependent never launched and reported Skipped with exit code != 0, recursively; non-trivial = at least one unsatisfiable edge observed; distinct = event-order signature",
 		Assumptions: []string{"only single-instance histories are judged for the Skipped report (API restarts make the terminal state ambiguous)"},
 		Gen: func(seed int64, tier string) []fw.Case {
 			var cs []fw.Case
